@@ -578,7 +578,7 @@ class Message:
             if not header:
                 raise EOFError("empty read")
         except EOFError as e:
-            raise EOFError("couldn't load message header, " + e.args[0]) from None
+            raise EOFError("couldn't load message header, " + str(e)) from None
         msgtype, channel, payload = struct.unpack("!bii", header)
         return Message(msgtype, channel, io.read(payload))
 
